@@ -153,8 +153,7 @@ def cases(tier, seed):
       k += 1
   if tier == "quick":
     # sample: quick tier covers ~60 fields, thorough all
-    idx = rng.permutation(len(out))[:48]
-    out = [out[i] for i in sorted(idx)]
+    pass  # every batchable float field is run once in the quick tier too (a sampled subset missed seeded defects)
   return out
 
 
